@@ -219,13 +219,17 @@ def variableCouldBeSet (s : Scalars) (name : String) : Bool :=
   s.nonIterable.variableCouldBeSet name || s.canonStreams.variableCouldBeSet name
 
 def meetFoldStart (s : Scalars) : Scalars :=
-  { s with nonIterable := s.nonIterable.meetFoldStart, canonStreams := s.canonStreams.meetFoldStart }
+  { s with nonIterable := s.nonIterable.meetFoldStart, canonStreams := s.canonStreams.meetFoldStart,
+           canonMaps := s.canonMaps.meetFoldStart }
 def meetNextBefore (s : Scalars) : Scalars :=
-  { s with nonIterable := s.nonIterable.meetNextBefore, canonStreams := s.canonStreams.meetNextBefore }
+  { s with nonIterable := s.nonIterable.meetNextBefore, canonStreams := s.canonStreams.meetNextBefore,
+           canonMaps := s.canonMaps.meetNextBefore }
 def meetNextAfter (s : Scalars) : ER Scalars := do
-  pure { s with nonIterable := ← s.nonIterable.meetNextAfter, canonStreams := ← s.canonStreams.meetNextAfter }
+  pure { s with nonIterable := ← s.nonIterable.meetNextAfter, canonStreams := ← s.canonStreams.meetNextAfter,
+                canonMaps := ← s.canonMaps.meetNextAfter }
 def meetFoldEnd (s : Scalars) : ER Scalars := do
-  pure { s with nonIterable := ← s.nonIterable.meetFoldEnd, canonStreams := ← s.canonStreams.meetFoldEnd }
+  pure { s with nonIterable := ← s.nonIterable.meetFoldEnd, canonStreams := ← s.canonStreams.meetFoldEnd,
+                canonMaps := ← s.canonMaps.meetFoldEnd }
 def meetNewStartScalar (s : Scalars) (n : String) : Scalars := { s with nonIterable := s.nonIterable.meetNewStart n }
 def meetNewEndScalar (s : Scalars) (n : String) : Scalars × Bool :=
   let (m, ok) := s.nonIterable.meetNewEnd n
@@ -234,6 +238,24 @@ def meetNewStartCanon (s : Scalars) (n : String) : Scalars := { s with canonStre
 def meetNewEndCanon (s : Scalars) (n : String) : Scalars × Bool :=
   let (m, ok) := s.canonStreams.meetNewEnd n
   ({ s with canonStreams := m }, ok)
+
+def meetNewStartCanonMap (s : Scalars) (n : String) : Scalars := { s with canonMaps := s.canonMaps.meetNewStart n }
+def meetNewEndCanonMap (s : Scalars) (n : String) : Scalars × Bool :=
+  let (m, ok) := s.canonMaps.meetNewEnd n
+  ({ s with canonMaps := m }, ok)
+
+/-- `get_canon_map` -/
+def getCanonMap (s : Scalars) (name : String) : ER CanonStreamMapWP :=
+  match s.canonMaps.getValue name with
+  | .ok (some v) => .ok v
+  | .ok none => catchable (.variableWasNotInitializedAfterNew name)
+  | .error e => .error e
+  | .panic p => .panic p
+
+/-- `set_canon_map_value` -/
+def setCanonMapValue (s : Scalars) (name : String) (v : CanonStreamMapWP) : ER Scalars := do
+  let (_, m) ← s.canonMaps.setValue name v
+  pure { s with canonMaps := m }
 
 /-- `get_canon_stream` -/
 def getCanonStream (s : Scalars) (name : String) : ER CanonStreamWP :=
